@@ -125,6 +125,28 @@ def _mirror_kw(kw):
     return m
 
 
+def _off_table_jumps(solver, pts):
+    """mask of request points that are NOT within two cells of a discontinuity of a tabulated solver (the general-EOS Riemann
+    solver keeps its table in the attributes x, r, p, e after a call): a point inside the smeared cell takes the state of either
+    side depending on round-off, which says nothing about the relation under test.  Closed-form solvers: all True."""
+    pts = np.asarray(pts, float)
+    if not all(hasattr(solver, a_) for a_ in ("x", "r", "p", "e")) or type(solver).__name__ != "GenEOS_Solver":
+        return np.ones(len(pts), bool)
+    x, r_, e_ = np.asarray(solver.x, float), np.asarray(solver.r, float), np.asarray(solver.e, float)
+    with np.errstate(all="ignore"):
+        big = (np.abs(np.diff(r_)) > 0.02 * np.maximum(np.abs(r_[1:]), np.abs(r_[:-1]))) | \
+              (np.abs(np.diff(e_)) > 0.02 * np.maximum(np.abs(e_[1:]), np.abs(e_[:-1])))
+    xs = 0.5 * (x[1:] + x[:-1])[big]
+    dx = (x[-1] - x[0]) / max(len(x) - 1, 1)
+    if xs.size == 0:
+        return np.ones(len(pts), bool)
+    return np.min(np.abs(pts[:, None] - xs[None, :]), axis=1) > 2.5 * dx
+
+
+def _keep(fa, fb, mask):
+    return {n: v[mask] for n, v in fa.items()}, {n: v[mask] for n, v in fb.items()}
+
+
 def _root_floor(fa):
     """the star pressure is a bisection root with scipy's absolute tolerance 2e-12: next to a vacuum (p* ~ 1e-9) the star velocity,
     computed from one side, carries du = dp / sqrt(gamma p rho); the mirrored problem computes it from the other side"""
@@ -139,10 +161,12 @@ def mirror(state, rs, tid):
     kw = G.kwargs(state)
     t = E.qf(state["t"])
     pts = G.request(fam, kw, t)
-    sa = G.call(G.build(fam, kw), pts, t)
-    sb = G.call(G.build(fam, _mirror_kw(kw)), -pts[::-1], t)
+    A, B = G.build(fam, kw), G.build(fam, _mirror_kw(kw))
+    sa = G.call(A, pts, t)
+    sb = G.call(B, -pts[::-1], t)
     fa = G.fields(sa)
     fb = {n: v[::-1] for n, v in G.fields(sb).items()}
+    fa, fb = _keep(fa, fb, _off_table_jumps(A, pts) & _off_table_jumps(B, -pts[::-1])[::-1])
     fl = floors(fa)
     fl["velocity"] = max(fl.get("velocity", 0.0), 1e-9 * float(np.sqrt(np.nanmax(fa["pressure"] / fa["density"]))), _root_floor(fa))
     return rel_events(tid, "Mirror", fam, state["row"]["res"], fa, fb, {}, fl), 2 * len(pts)
@@ -161,9 +185,11 @@ def boost(state, rs, tid):
         x0 = kw.get("xd0", 0.5)
         kw = dict(kw, xmin=x0 - 10 * t, xmax=x0 + 10 * t)
         kb = dict(kb, xmin=x0 - 10 * t + U * t, xmax=x0 + 10 * t + U * t)
-    sa = G.call(G.build(fam, kw), pts, t)
-    sb = G.call(G.build(fam, kb), pts + U * t, t)
+    A, B = G.build(fam, kw), G.build(fam, kb)
+    sa = G.call(A, pts, t)
+    sb = G.call(B, pts + U * t, t)
     fa, fb = G.fields(sa), G.fields(sb)
+    fa, fb = _keep(fa, fb, _off_table_jumps(A, pts) & _off_table_jumps(B, pts + U * t))
     ua, ub = fa.pop("velocity"), fb.pop("velocity")
     c = float(np.sqrt(np.nanmax(fa["pressure"] / fa["density"])))
     c = max(c, 1e3 * _root_floor(fa))          # the velocity balance is judged against c x 1e-8 x tolerance: keep the root-finder's resolution above it
@@ -304,6 +330,8 @@ def route(state, rs, tid):
             raise ValueError(r)
     sbv = G.call(sb, ptsb, tb)
     fb = G.fields(sbv)
+    if r == "IGEOS=GenEOS":
+        fa, fb = _keep(fa, fb, _off_table_jumps(sb, ptsb))
     if flip and "velocity" in fb:
         fb["velocity"] = -fb["velocity"]
     if r == "Noh=Cog19":
